@@ -3,8 +3,7 @@ Require Import Value GenCache CacheModel CacheProofs.
 Import ListNotations.
 Local Open Scope Z_scope.
 
-(* C18 at full strength: a start on any admissible cache content answers exactly as a start with the cache disabled
-   (compiles once the cache-disabled branch loads the database completely). *)
+(* C18 at full strength: a start on any admissible cache content answers exactly as a start with the cache disabled. *)
 Theorem cache_transparent :
   forall cur c, quick_admissible cur c -> fst (quick_start gen_config cur c) = disabled_start gen_config.
 Proof. intros cur c. exact (cache_transparent_gen gen_config cur c ltac:(vm_compute; reflexivity) (eq_refl true)). Qed.
